@@ -34,6 +34,11 @@ The NFA half (memo of `_get_lambda_closures`): histories of accepts_input, read_
 DFA.from_nfa, eliminate_lambda, validate on one NFA object, same fresh-copy oracle, replayed by the
 Lean machine `nstep` (NHISTORY command), memoised closure table compared with a fresh one.
 
+Round 7: DEEP / LARGE instances and LONG query sequences (`deep_family`, harness/c20_deep.py): objects of up to 3000 states,
+lengths up to 3000, up to 330 calls on one object, inputs of 3000 symbols for the NFA half; answers judged by closed forms
+derived from the construction parameters (no model round trip), small twins of the same templates through the fresh-copy
+oracle and the Lean model.
+
 Correspondence: the whole history is replayed by the Lean state machine `step` (HISTORY command);
 answers are compared, the content of every populated level of `_count_cache` / `_word_cache` is
 compared with the model's tables (the invariant `CacheInv` of Props/C20.lean, checked on the real
@@ -51,6 +56,7 @@ import time
 from automata.fa.dfa import DFA
 
 from harness import gen
+from harness import c20_deep as DD
 from harness import c20_lib4 as L4
 from harness import dfa_query_lib as L
 from harness import dfa_query_lib3 as Q3
@@ -73,7 +79,18 @@ RULE = ("cases = (valid DFA, history of ≤30 public calls on one instance, incl
         "aliased containers / as a copy of such an object (25–45 % of the random histories, all corpus histories); NFA "
         "histories: random NFAs, lambda-dense NFAs and NFAs with a lambda cycle of length 3–5 entered at different members "
         "by different first symbols (all ordered pairs of entry+exit words on 9 fixed ones), reads in bursts, a second live "
-        "NFA operand, same modes; evaluations = calls compared "
+        "NFA operand, same modes; round 7 — DEEP / LARGE instances (harness/c20_deep.py), every run: 7 DFA and 3 NFA templates built "
+        "by the library's constructors from JSON specs with sizes drawn from the seed — a^lo a* and Σ^≥lo (≤ 6 states) asked "
+        "130–330 calls on ONE object at lengths up to 3000 (the long length first, then short ones, then lengths in between, "
+        "clear_cache and live generators in between; the same kind of object asked in ascending stretches of 200–700), "
+        "Σ^≤N and {a^N} with N = 1100–3000 states (linear operations, successor search along the whole chain, words of N "
+        "symbols, comparisons with a relabelled partner), {a^k : lo ≤ k ≤ N} with N = 240–300 (the length × states tables "
+        "in full: count / words / random_word at and beyond the depth, cardinality, len, the whole iteration, predecessors), "
+        "{b, (ab)^M} with 2M = 1100–3000; NFA: lambda chain of 1100–1300 states, shallow NFA with a lambda cycle reading "
+        "34 inputs of 2800–3000 symbols, symbol chain of 2000–3000 states with lambda side exits (accepts_input, read_input, "
+        "read_input_stepwise, ==, DFA.from_nfa, eliminate_lambda) — every answer judged by a CLOSED FORM from the construction "
+        "parameters (no model round trip for these), a few plain queries asked again as first call on a fresh object, and "
+        "each template also at ≤ 8 states where closed form, fresh-copy oracle and Lean model must all agree; evaluations = calls compared "
         "with a fresh copy; a history is non-trivial when it contains ≥2 cache-touching calls on a DFA with a "
         "non-empty language; distinct = distinct (definition, history)")
 ASSUMPTIONS = [
@@ -91,7 +108,12 @@ ASSUMPTIONS = [
 ]
 EXPLANATION = ("Theorem C20_history: for every DFA and every finite history the cached instance `step` returns the "
                "answers of the stateless `stepPure`; this run ties `step` to the code by differential execution of "
-               "random histories and evaluates the property on the real code against fresh copies.")
+               "random histories and evaluates the property on the real code against fresh copies.  The theorem has no size "
+               "bound; the differential runs do (≤ 6 states, lengths ≤ 8, ≤ 30 calls), so size thresholds of the real caches "
+               "(recursion depth ≈ 1000, lru_cache's 128 entries, fixed-size windows) are covered by the deep / large family: "
+               "histories of up to 330 calls at lengths up to 3000 on objects of up to 3000 states whose every answer is "
+               "dictated by the construction parameters in closed form (cross-checked against the fresh-copy oracle and the "
+               "model on small twins of the same templates).")
 
 NX_FUEL = 60
 HANGS = 0           # histories ended by a real call that did not return (time / memory guard of L.guarded)
@@ -1079,8 +1101,154 @@ def nfa_corpus():
                             dict(q="DET"), dict(q="OA", w="aab"), dict(q="OA", w="bb"), dict(q="QE"), dict(q="A", w="bb")]
 
 
+# ------------------------------------------------------------------ round 7: DEEP / LARGE instances, LONG query sequences
+# The property quantifies over every valid DFA / NFA and every finite history; all generators above stay at ≤ 6 states,
+# lengths ≤ 8 and ≤ 30 calls.  A cache that is coherent only while it is SMALL — `while len(cache) <= k` rewritten as a
+# recursion over k (RecursionError near depth 1000, but only when the long length is asked FIRST), a bare lru_cache (128
+# entries) behind a query, a level list cut off at a fixed size, a recursive closure walk — passes all of them.  This
+# family (harness/c20_deep.py) builds big objects from small JSON specs with the library's own constructors, runs long
+# histories on ONE object each and judges every answer by a CLOSED FORM derived from the construction parameters —
+# independent of the library and of the Lean model: NO model round trip is made for the big instances (stat
+# `deep:closed_form_oracle_no_model_round_trip`).  The closed forms are tied to the real code twice: `selfcheck`
+# (membership predicate vs the real accepts_input on the boundary words of every big DFA) and the SMALL TWINS: every
+# template is also instantiated at ≤ 8 states / lengths ≤ 8, judged by the closed form AND run through this module's
+# existing oracle (run_history / run_nfa_history: fresh copy per call + Lean HISTORY / NHISTORY replay); a twin on which
+# the closed form objects while the existing oracle is content is an InfraError of the harness, not a finding.
+# A wrong answer is re-confirmed on newly built objects (the step alone as the FIRST call on a fresh object, else the
+# recorded prefix); the replay carries the specs and the steps.  Every real call runs under a watchdog (10 s).
+DEEP_STOP = 3
+
+
+def deep_report(ctx: Ctx, family: str, case: dict, r, run_fn, show, standalone) -> None:
+    i, msg, got = r
+    steps = case["steps"]
+    spec, other = case["spec"], case["other"]
+    expr = DD.expr_dfa(spec) if family == "dfa" else DD.DeepNFA(spec).expr()
+    alone = run_fn(spec, other, [steps[i]]) if standalone(steps[i]) else "n/a"
+    prefix = run_fn(spec, other, steps[: i + 1])
+    again = prefix is not None and prefix[0] == i
+    if alone not in (None, "n/a"):
+        small, m2 = [steps[i]], alone[1]
+        what = (f"{show(steps[i])} {m2} — FIRST call on a fresh object: {expr}"
+                + ("" if again else f" (asked after {i} earlier calls on one object the answer was {DD.short(got)})"))
+    elif again:
+        small, m2 = steps[: i + 1], prefix[1]
+        what = (f"{show(steps[i])} {m2} — call #{i} on ONE object after {i} earlier calls"
+                + (" (asked as the first call on a fresh object the construction's answer is given)" if alone is None else "")
+                + f": {expr}; earlier calls: " + "; ".join(show(s) for s in steps[max(0, i - 6): i]))
+    else:
+        ctx.stat("deep:failure_not_reproduced")
+        if got == ("err", "_Timeout"):
+            ctx.note(f"deep family: {show(steps[i])} on {expr} timed out once and answered on the second try")
+        else:
+            ctx.corr_diff("deep-not-reproduced", dict(automaton=expr, spec=spec, other=other, steps=steps[: i + 1]),
+                          DD.short(got), msg)
+        return
+    ctx.stat(f"deep:{family}:property_failure")
+    ctx.prop_fail(what, dict(kind="deep", family=family, automaton=expr, spec=spec, other=other, steps=small, what=what), None)
+
+
+@case_guard
+def check_deep(ctx: Ctx, family: str, case: dict):
+    if L.TIMEOUTS >= DEEP_STOP:
+        ctx.stat("deep:skipped_after_timeouts")
+        return
+    spec, other, steps, name = case["spec"], case["other"], case["steps"], case["name"]
+    t0 = time.time()
+    if family == "dfa":
+        n_probe, bad = DD.selfcheck_dfa(spec, ctx.rng)
+        for _ in range(n_probe):
+            ctx.stat("deep:selfcheck_words_through_accepts_input")
+        if bad is not None:
+            ctx.stat("deep:selfcheck_disagreement")
+            ctx.corr_diff("deep-closed-form", dict(automaton=DD.expr_dfa(spec), spec=spec, word=DD.short(bad)),
+                          "accepts_input disagrees", "closed-form membership")
+            return
+        size = DD.DP.DeepLang(spec).n_states_expected()
+        run_fn, show, standalone = DD.run_dfa, DD.show_step, (lambda s: s["q"] in DD.STANDALONE)
+    else:
+        size = DD.DeepNFA(spec).n_states()
+        run_fn, show, standalone = DD.run_nfa, DD.show_nstep, (lambda s: True)
+    ctx.stat(f"deep:{family}:{name}")
+    ctx.stat(f"deep:states:{size // 500 * 500}+")
+    ctx.stat("deep:closed_form_oracle_no_model_round_trip")
+    ctx.stat(f"deep:history_len:{len(steps) // 50 * 50}+")
+
+    def on_step(s, got):
+        ctx.case(None)
+        ctx.stat(f"deep_q:{s['q']}")
+        k = s.get("k")
+        if isinstance(k, int) and k >= 1000:
+            ctx.stat(f"deep_q:{s['q']}:length_1000+")
+        if "w" in s and sum(len(u) * r for u, r in s["w"]) >= 1000:
+            ctx.stat(f"deep_q:{s['q']}:input_1000+_symbols")
+
+    r = run_fn(spec, other, steps, on_step)
+    ctx.case(("deep", family, DD.key_of(case), len(steps)))
+    if ctx.stats.get(f"deep:{family}:{name}", 0) == 1:
+        ctx.sample(dict(deep=name, automaton=(DD.expr_dfa(spec) if family == "dfa" else DD.DeepNFA(spec).expr()), states=size,
+                        calls_on_one_object=len(steps), first_calls=[show(s) for s in steps[:10]]))
+    if r is not None:
+        deep_report(ctx, family, case, r, run_fn, show, standalone)
+    elif family == "dfa":
+        # the same answers from a FRESH object: a few of the plain queries, each as the first call on its own object
+        plain = [s for s in steps if s["q"] in DD.STANDALONE and s["q"] != "cmp"]
+        big = [s for s in plain if s.get("k", 0) >= 1000][:1] + [s for s in plain if s["q"] in ("card", "succ")][:1]
+        for s in big + [ctx.rng.choice(plain)]:
+            ctx.stat("deep:plain_query_asked_again_as_first_call_on_a_fresh_object")
+            r1 = DD.run_dfa(spec, other, [s])
+            ctx.case(None)
+            if r1 is not None:
+                deep_report(ctx, family, dict(case, steps=[s]), r1, run_fn, show, standalone)
+                break
+
+
+@case_guard
+def deep_twin(ctx: Ctx, family: str, case: dict):
+    """The template at ≤ 8 states: closed form AND the existing oracle of this module (fresh copy + Lean model)."""
+    spec, other, steps = case["spec"], case["other"], case["steps"]
+    before = (ctx.n_prop_fails, ctx.n_corr_diffs)
+    ctx.stat(f"deep:twin:{family}:{case['name']}")
+    if family == "dfa":
+        r = DD.run_dfa(spec, other, steps)
+        d = DD.build_dfa(spec)
+        o = DD.build_dfa(other) if other is not None else d.copy()
+        hist = DD.to_c20_history(spec, steps)
+        kmax = max([3] + [q["k"] for q in hist if "k" in q])
+        run_history(ctx, d, o, hist, "deep-twin", kmax)
+        show = DD.show_step
+    else:
+        r = DD.run_nfa(spec, other, steps)
+        n = DD.DeepNFA(spec).build()
+        o = DD.DeepNFA(other).build() if other is not None else n.copy()
+        run_nfa_history(ctx, n, o, DD.to_c20_nfa_history(steps), "deep-twin")
+        show = DD.show_nstep
+    for _ in steps:
+        ctx.stat("deep:twin_answers_judged_by_closed_form_and_existing_oracle")
+    if r is not None:
+        if (ctx.n_prop_fails, ctx.n_corr_diffs) == before:
+            raise InfraError(f"C20 deep family: on the small twin {json.dumps(spec)} the closed form objects to "
+                             f"{show(steps[r[0]])} {r[1]} while the fresh-copy oracle and the Lean model are content")
+        deep_report(ctx, family, case, r, DD.run_dfa if family == "dfa" else DD.run_nfa, show,
+                    (lambda s: s["q"] in DD.STANDALONE) if family == "dfa" else (lambda s: True))
+
+
+def deep_family(ctx: Ctx):
+    rng = ctx.rng
+    t0 = time.time()
+    for family, templates in (("dfa", DD.DFA_TEMPLATES), ("nfa", DD.NFA_TEMPLATES)):
+        for t in templates:
+            deep_twin(ctx, family, t(rng, DD.Profile(rng, False)))
+    t1 = time.time()
+    for family, templates in (("dfa", DD.DFA_TEMPLATES), ("nfa", DD.NFA_TEMPLATES)):
+        for t in templates:
+            check_deep(ctx, family, t(rng, DD.Profile(rng, True)))
+    ctx.note(f"deep / large family: twins {t1 - t0:.1f}s, big instances {time.time() - t1:.1f}s")
+
+
 def run(ctx: Ctx):
     rng = ctx.rng
+    deep_family(ctx)
     for i, (d, hist) in enumerate(corpus()):
         run_history(ctx, d, d.copy(), hist, "corpus", kmax_for(d))
         # round 4: the same history on an object built under allow_mutable_automata=True (plain / aliased containers)
@@ -1368,6 +1536,16 @@ def replay(ctx: Ctx, path: str) -> int:
     rp = data.get("replay", data)
     from automata.fa.nfa import NFA
     env = {"DFA": DFA, "NFA": NFA, "frozenset": frozenset}
+    if rp.get("kind") == "deep":
+        fam = rp["family"]
+        r = (DD.run_dfa if fam == "dfa" else DD.run_nfa)(rp["spec"], rp["other"], rp["steps"])
+        if r is not None and r[0] == len(rp["steps"]) - 1:
+            show = DD.show_step if fam == "dfa" else DD.show_nstep
+            print(f"VIOLATION property=C20 replay={path}")
+            print(f"  {show(rp['steps'][r[0]])} {r[1]} — call #{r[0]} of the recorded history on one newly built object: {rp['automaton']}")
+            return 1
+        print("replay: property holds on this input now")
+        return 0
     if rp.get("kind") == "multi":
         run_multi_history(ctx, [eval(a, env) for a in rp["automata"]], rp["steps"], "replay", rp.get("mode", "frozen"))
     elif rp.get("kind") == "nfa":
